@@ -73,7 +73,7 @@ def walk(gen, cid, o, path, out):
             for i, e in enumerate(v):
                 walk(gen, k["cls"], e, p + [i], out)
         elif t == "hashes" and isinstance(v, dict):
-            out.append(("hashes", p, {}))
+            out.append(("hashes", p, {"kind": k}))
         elif t == "ref" and isinstance(v, str):
             out.append(("ref", p, {"kind": k}))
         elif t == "list" and k["of"]["k"] == "ref" and isinstance(v, list):
@@ -146,11 +146,26 @@ def injections(gen, cid, o):
             mut(lambda x: at(x, path).__setitem__(hn, "abcd"), "hash algorithm %s at %s" % (hn, ps), True)
             if r.random() < 0.3:
                 mut(lambda x: set_at(x, path, {hn: "abcd"}), "only hash algorithm %s at %s" % (hn, ps), True)
+            # an algorithm the library recognises (it checks the value) but the slot's specification list does not name
+            norm = lambda n: n.replace("-", "").upper()
+            have = {norm(n) for n in ex["kind"].get("names", [])}
+            outside = [n for n in stixgen.HASH_VALUES if norm(n) not in have]
+            if outside:
+                rn = r.choice(outside)
+                spelled = r.choice([rn, rn.lower()])
+                mut(lambda x: at(x, path).__setitem__(spelled, stixgen.HASH_VALUES[rn]),
+                    "recognised hash algorithm outside the specification list %s at %s" % (spelled, ps), True)
         elif kind == "ref":
             cur = at(o, path)
             uu = cur.split("--", 1)[1] if "--" in cur else U1
             ct = r.choice(["x-custom-type", "x-foo", "my-unregistered-type"])
             mut(lambda x: set_at(x, path, ct + "--" + uu), "reference to custom type %s at %s" % (ct, ps), True)
+            # custom types REGISTERED in the worker process: still custom when named x-...
+            rt = r.choice(["x-registered-object", "x-registered-observable"])
+            mut(lambda x: set_at(x, path, rt + "--" + uu), "reference to registered custom type %s at %s" % (rt, ps), True)
+            if r.random() < 0.3:
+                mut(lambda x: set_at(x, path, "registered-plain-object--" + uu),
+                    "reference to registered type without x- prefix at %s" % ps, False)
             ot = r.choice(OTHER_CATEGORY)
             if ot != cur.split("--", 1)[0]:
                 mut(lambda x: set_at(x, path, ot + "--" + uu), "reference to registered type %s at %s" % (ot, ps), False)
@@ -165,12 +180,29 @@ def injections(gen, cid, o):
             if ex["ver"] == "2.1" and r.random() < 0.5:
                 mut(lambda x: add(x, "extension-definition--" + U1, {"extension_type": "property-extension", "rank": 5}),
                     "unregistered extension-definition property-extension at %s" % ps, False)
+            if ex["ver"] == "2.1" and r.random() < 0.5:
+                # a property-extension does not define top-level properties: an unknown one next to it is custom
+                def pe(x):
+                    add(x, "extension-definition--" + U1, {"extension_type": "property-extension", "rank": 5})
+                    at(x, path)["rank_top"] = 5
+                mut(pe, "unknown top-level property next to an unregistered property-extension at %s" % ps, True)
+            if r.random() < 0.3:
+                mut(lambda x: add(x, "x-registered-ext", {"rank": 1}), "registered custom extension x-registered-ext at %s" % ps, False)
+                mut(lambda x: add(x, "x-registered-ext", {"rank": 1, "x_more": 2}),
+                    "custom property inside registered custom extension at %s" % ps, True)
             if ex["ver"] == "2.1" and r.random() < 0.3 and kind == "extensions-absent":
                 def tl(x):
                     add(x, "extension-definition--" + U1, {"extension_type": "toplevel-property-extension"})
                     at(x, path)["rank"] = 5
                 mut(tl, "unregistered toplevel-property-extension with an extra property at %s" % ps, False)
         elif kind == "bundle-members":
+            member = {"type": "x-registered-object", "id": "x-registered-object--" + U1, "name": "n",
+                      "created": "2016-01-01T00:00:00.000Z", "modified": "2016-01-01T00:00:00.000Z"}
+            if ex["ver"] == "2.1":
+                member["spec_version"] = "2.1"
+            mut(lambda x: at(x, path).append(dict(member)), "registered custom object as bundle member at %s" % ps, False)
+            mut(lambda x: at(x, path).append(dict(member, x_extra=1)),
+                "custom property in registered custom object as bundle member at %s" % ps, True)
             mut(lambda x: at(x, path).append({"type": "x-custom-object", "id": "x-custom-object--" + U1, "foo": 1}),
                 "unregistered object type as bundle member at %s" % ps, True)
         elif kind == "observed-members":
@@ -217,6 +249,11 @@ def correspondence(run, cases, variants):
             ccases.append({"op": "parse" if c["route"] == "parse" else "construct", "cid": c["cid"], "data": c["data"],
                            "allow": allow, "site": c.get("site")})
     ccases = [c for c in ccases if "/<" not in c["cid"] or c["op"] == "parse"]
+    # the model's tables are the library's own classes; cases that rely on types registered in the oracle worker stay out
+    ccases = [c for c in ccases if "registered" not in json.dumps(c["data"])]
+    if "vr_marking_flag" not in variants.flags:
+        # until the shared model carries the variant for MarkingProperty's ignored flag (asked of its owner)
+        ccases = [c for c in ccases if not str(c.get("site")).startswith("custom_properties key at definition")]
     impl = common.run_impl("c04_corr_impl", ccases)
     pats = sc.pattern_lists(ccases)
     hdr = sc.header(variants, pats) + CORR_HEADER_EXTRA
@@ -281,8 +318,9 @@ def gen_cases(run, per_class):
                     cs["requested"] = True
                 cases.append(cs)
                 key = site.split(" at ")[0]
-                for w in ("custom property", "hash algorithm", "only hash algorithm", "reference to custom type",
-                          "reference to registered type", "unregistered extension type"):
+                for w in ("custom property inside", "custom property in registered", "custom property", "hash algorithm",
+                          "only hash algorithm", "recognised hash algorithm", "reference to custom type",
+                          "reference to registered custom type", "reference to registered type", "unregistered extension type"):
                     if key.startswith(w):
                         key = w
                 site_hist[key] = site_hist.get(key, 0) + 1
@@ -293,6 +331,14 @@ def gen_cases(run, per_class):
              "custom_properties": {"x_foo": 1}}
     cases.append({"route": "parse", "cid": "2.1/Identity", "data": ident, "custom": True,
                   "site": "custom_properties key at <top> (2.1/Identity)"})
+    for ver in ("2.0", "2.1"):
+        md = {"type": "marking-definition", "id": "marking-definition--3e4e3684-9b4b-484e-83eb-5944490c07df",
+              "created": "2017-06-24T13:09:27.000Z", "definition_type": "statement",
+              "definition": {"statement": "s", "custom_properties": {"x_via_loophole": 1}}}
+        if ver == "2.1":
+            md["spec_version"] = "2.1"
+        cases.append({"route": "parse", "cid": ver + "/MarkingDefinition", "data": md, "custom": True,
+                      "site": "custom_properties key at definition (%s/StatementMarking)" % ver})
     sight = {"type": "sighting", "spec_version": "2.1", "id": "sighting--311b2d2d-f010-4473-83ec-1edf84858f4c",
              "created": "2020-01-01T00:00:00.000Z", "modified": "2020-01-01T00:00:00.000Z",
              "sighting_of_ref": "marking-definition--613f2e26-407d-48c7-9eca-b8e91df99dc9"}
@@ -314,6 +360,9 @@ FINDINGS = [
 
 def classify(case, f):
     site = case.get("site", "")
+    if site.startswith("custom_properties key at definition (") and "MarkingDefinition" in case["cid"] and f["kind"] in (
+            "flag-false-but-strict-reparse-refused", "custom-content-admitted-with-customization-disallowed"):
+        return "C04-marking-definition-ignores-custom-flag-of-definition"
     if f["kind"] == "flag-false-but-strict-reparse-refused" and site.startswith("reference to registered type"):
         return "C04-allow-mode-admits-registered-type-outside-reference-category-unflagged"
     if f["kind"] == "custom-content-admitted-with-customization-disallowed" and site.startswith("custom_properties key at <top>"):
